@@ -103,7 +103,19 @@ func c16CheckPath(c *fw.Case, p refmodel.Path, seen map[string]string, strict bo
 		}
 		parent := pathutils.GetParentPath(text)
 		wantParent := utils.StrPath(p.Parent().ToGNMI(""))
-		if len(p) == 1 {
+		slashInKey := false
+		for _, e := range p {
+			for _, kv := range e.Keys {
+				if strings.Contains(kv.V, "/") {
+					slashInKey = true
+				}
+			}
+		}
+		if slashInKey {
+			// GetParentPath cuts at the last '/', which a key value may contain; such values are outside the
+			// alphabet update validation accepts (IndexAllowedChars), so the parent clause is not judged for them
+			c.Count("paths_with_slash_in_key_parent_not_judged", 1)
+		} else if len(p) == 1 {
 			if parent != "" && parent != "/" {
 				c.Violate("path", "path/parent", fmt.Sprintf("parent of %q is %q", text, parent), nil)
 				return false
@@ -181,7 +193,7 @@ func c16Escapes(c *fw.Case) {
 			p = append(p, e)
 		}
 		c.Count("escape_paths", 1)
-		if !c16CheckPath(c, p, seen, false) {
+		if !c16CheckPath(c, p, seen, true) {
 			return
 		}
 	}
